@@ -20,6 +20,10 @@ pub enum VKind {
     Signed,
     /// multiples of 1/8 in [-3, 3]
     Small,
+    /// arbitrary doubles (full mantissas, not dyadic fractions) in [-3, 3]
+    Real,
+    /// arbitrary doubles in [0.25, 4]
+    PosReal,
 }
 
 pub fn gen_vals(seed: u64, n: usize, kind: VKind) -> Vec<f64> {
@@ -34,7 +38,39 @@ pub fn gen_vals(seed: u64, n: usize, kind: VKind) -> Vec<f64> {
                 VKind::Pos => 0.25 + (r % 31) as f64 * 0.125,
                 VKind::Signed => (0.25 + (r % 31) as f64 * 0.125) * if (r >> 8) & 1 == 0 { 1.0 } else { -1.0 },
                 VKind::Small => (r % 49) as f64 * 0.125 - 3.0,
+                VKind::Real => (r as f64 / 9007199254740992.0) * 6.0 - 3.0,
+                VKind::PosReal => 0.25 + (r as f64 / 9007199254740992.0) * 3.75,
             }
+        })
+        .collect()
+}
+
+/// every element multiplied by its own power of two 2^j, j in [-jitter, jitter] (magnitudes that differ widely
+/// WITHIN one array; the mantissas are untouched)
+pub fn spread(vals: &mut [f64], seed: u64, jitter: i32) {
+    if jitter <= 0 {
+        return;
+    }
+    let mut z = mix(seed ^ 0x5EED_CAFE);
+    for v in vals.iter_mut() {
+        z = mix(z);
+        let j = (z >> 20) % (2 * jitter as u64 + 1);
+        *v *= 2f64.powi(j as i32 - jitter);
+    }
+}
+
+/// values of log-uniform magnitude: mantissa in [1, 2) with full precision, exponent uniform in [lo, hi], random sign
+/// (`signed`), never zero
+pub fn log_uniform(seed: u64, n: usize, lo: i32, hi: i32, signed: bool) -> Vec<f64> {
+    let mut z = mix(seed ^ 0x10C0_FFEE);
+    (0..n)
+        .map(|_| {
+            z = mix(z);
+            let m = 1.0 + ((z >> 11) as f64 / 9007199254740992.0);
+            z = mix(z);
+            let e = lo + ((z >> 16) % (hi - lo + 1) as u64) as i32;
+            let s = if signed && (z >> 7) & 1 == 1 { -1.0 } else { 1.0 };
+            s * m * 2f64.powi(e)
         })
         .collect()
 }
